@@ -18,6 +18,7 @@ use std::sync::Arc;
 
 #[derive(Clone, Debug, Hash, PartialEq, Eq, Serialize, Deserialize)]
 pub struct TxSpec {
+    #[serde(with = "crate::spec::u128_hex")]
     pub txid: u128,
     pub taker: IdSpec,
     pub maker: IdSpec,
